@@ -20,7 +20,10 @@ def gen_cases(seed, tier):
     cases = []
     for _ in range(n):
         spec = G.gen_network(rng, kinds=("massaction", "massaction") + tuple(G.HILL) + ("general",), nrx=(1, 4), nsp=(1, 4), max_order=4, allow_delay=rng.random() < 0.6,
-                             general_pool=["kg*%s", "kg*%s*%s", "kg*%s/(1+%s)", "kg*%s^2/(Kg+%s^2)"],
+                             general_pool=["kg*%s", "kg*%s*%s", "kg*%s/(1+%s)", "kg*%s^2/(Kg+%s^2)",
+                                           # unary minus applied to a power: the two formula grammars of libSBML read it differently
+                                           # (seeded change S6_C12: the kinetic law set through the Level-1 parser)
+                                           "kg*exp(-%s^2/Kg)", "kg*(2 - -%s^2/(1+%s^2))"],
                              # a third of the models use short lower-case species names, as gene / mRNA / protein models do (seeded change
                              # S4_C12: the import's reserved-word test became a substring test, dropping species called m, vol, me, ...)
                              species_pool=(LOWER_POOL if rng.random() < 0.35 else None))
